@@ -442,6 +442,18 @@ def frag_queue():
         if not dm or ordered_semantics(dm.group(2), datoms) != ordered_semantics("N && !E", {"E": ("E", True), "N": ("N", True)}):
             raise ValueError("~DisableQueueNotify not recognised in %s: %s" % (rel, d))
         out[key + "_dqnLocked"] = dm.group(1).startswith("{")
+        # every live DisableQueueNotify object is counted once (the model's nc is the number of live objects): the copy
+        # operations are deleted, or the copy constructor registers the copy (++counter) and the copy assignment leaves
+        # the count of each queue as it was (no-op for the same queue, copy-and-swap otherwise); no other special members
+        sm = re.search(r"struct\s+DisableQueueNotify\s*\{(.*?)\n\t\};", src, re.S)
+        if not sm:
+            raise ValueError("struct DisableQueueNotify not found")
+        sb = BoolExpr.norm(sm.group(1))
+        cc = re.search(r"DisableQueueNotify\(constDisableQueueNotify&(\w*)\)(=delete;|:queue\(\1\.queue\)\{\+\+queue->queueNotifyCounter;\})", sb)
+        ca = re.search(r"DisableQueueNotify&operator=\(constDisableQueueNotify&(\w*)\)(=delete;|\{if\(queue!=\1\.queue\)\{DisableQueueNotify(\w+)\(\1\);std::swap\(queue,\3\.queue\);\}return\*this;\})", sb)
+        moves = re.search(r"DisableQueueNotify&&", sb)
+        ctor = re.search(r"DisableQueueNotify\(EventQueueBase\*(\w+)\):queue\(\1\)\{\+\+queue->queueNotifyCounter;\}", sb)
+        out[key + "_dqnCopyCounts"] = bool(cc and ca and ctor and not moves)
     text = GEN_HEADER % "eventqueue.h / hetereventqueue.h emptyQueue, doCanProcess, ~DisableQueueNotify"
     text += "namespace Evp.Gen.Queue\n\n"
     for k, v in out.items():
@@ -548,8 +560,11 @@ def frag_dispatch():
         n = BoolExpr.norm(b)
         n = re.sub(r"static_assert\(.*?\);", "", n)
         n = re.sub(r"usingGetEvent=.*?::Type;", "", n)
-        if re.fullmatch(r"const(?:Event|auto)(&)?(\w+)=GetEvent::getEvent\((std::forward<T>\(first\),)?args\.\.\.\);directDispatch\(\2,std::forward<Args>\(args\)\.\.\.\);", n):
-            out["dispatch%d" % i] = True
+        m = re.fullmatch(r"(?:const)?(Event|auto)(&)?(\w+)=GetEvent::getEvent\((std::forward<T>\(first\),)?args\.\.\.\);directDispatch\(\3,std::forward<Args>\(args\)\.\.\.\);", n)
+        if m:
+            # the event has to be the library's own copy: a reference (or an `auto` proxy such as std::reference_wrapper)
+            # can alias an argument that the next statement forwards away
+            out["dispatch%d" % i] = m.group(1) == "Event" and m.group(2) is None
         elif re.fullmatch(r"directDispatch\(GetEvent::getEvent\((std::forward<T>\(first\),)?args\.\.\.\),std::forward<Args>\(args\)\.\.\.\);", n):
             out["dispatch%d" % i] = False
         else:
@@ -594,7 +609,7 @@ def frag_dispatch():
     if len(sites) != 8:
         raise ValueError("expected 8 calls of the getEvent policy, found %d" % len(sites))
     text = GEN_HEADER % "eventdispatcher.h dispatch x2, eventqueue.h enqueue x2, hetereventqueue.h doEnqueue x2; every GetEvent::getEvent call with its selection probe"
-    text += "namespace Evp.Gen.Dispatch\n\n/-- for each call expression: is reading the event sequenced before forwarding the arguments? -/\n"
+    text += "namespace Evp.Gen.Dispatch\n\n/-- for each call expression: is reading the event sequenced before forwarding the arguments (and, in dispatch, kept as a copy of its own)? -/\n"
     for k, v in out.items():
         text += "def %s : Bool := %s\n" % (k, "true" if v else "false")
     text += "\ndef allSequenced : Bool := " + " && ".join(out.keys()) + "\n"
